@@ -381,3 +381,14 @@ def run(facts, rep, ctx):
     from . import round3
     round3.gd11(facts, rep)
 
+
+_run_before_round4b = run
+
+
+def run(facts, rep, ctx):
+    """further rules added after the third seeding round (rules/round4.py)"""
+    _run_before_round4b(facts, rep, ctx)
+    from . import round4
+    round4.tb8b(facts, rep)
+    round4.br1(facts, rep)
+
